@@ -7,7 +7,7 @@ sys.path.insert(0, os.path.join(HERE, "tools"))
 import props  # noqa: E402
 TECH = "Coq 8.16 theorems (induction over streams / layouts / event lists) + per-run kernel-decided table theorems on the regenerated Tables.v + model/implementation correspondence evaluated by vm_compute"
 SRC_TECH = {"sock": "SocketWrapper", "reader": "RTCMReader", "msg": "RTCMMessage (non-recursive methods)", "helpers": "att2idx / att2name / datadesc",
-            "msgdec": "the RTCMMessage decoder"}
+            "msgdec": "the RTCMMessage decoder", "arr": "parse_msm", "arr2": "parse_4076_201"}
 
 
 def tech(v):
